@@ -277,6 +277,7 @@ class Profile(object):
         self.const_pred_only = False  # every predicate is  var cmp const
         self.temporal_in_arith = True  # FIN temporal formulas may appear under arithmetic
         self.var_bound = 8.0
+        self.no_future_under_past = False  # profile switch around the open C03 finding (warm-up of pastified past operators)
         for k, v in kw.items():
             if not hasattr(self, k):
                 raise AttributeError(k)
@@ -306,6 +307,7 @@ class _Gen(object):
         self.p = profile
         self.vars = variables
         self.pool = []          # sub-formulas already built: (formula, fin, mag)
+        self.nofut = 0          # > 0 while generating the operand of a past operator with memory (profile switch)
 
     def choice(self, seq):
         return self.draw(st.sampled_from(list(seq)))
@@ -411,13 +413,24 @@ class _Gen(object):
         p = self.p
         # reuse an already built sub-formula
         if self.pool and self.coin(p.reuse):
-            cands = [e for e in self.pool if (e[1] or not fin) and depth_of(e[0]) <= depth]
+            cands = [e for e in self.pool if (e[1] or not fin) and depth_of(e[0]) <= depth
+                     and not (self.nofut and has_future(e[0]))]
             if cands:
                 return self.choice(cands)
         out = self._formula(depth, fin)
         if out[0][0] not in ('var', 'const'):
             self.pool.append(out)
         return out
+
+    def past_operand(self, depth, fin=False):
+        """Operand of a past operator with memory; without future operators if the profile says so."""
+        if not self.p.no_future_under_past:
+            return self.formula(depth, fin)
+        self.nofut += 1
+        try:
+            return self.formula(depth, fin)
+        finally:
+            self.nofut -= 1
 
     def _formula(self, depth, fin):
         p = self.p
@@ -440,14 +453,20 @@ class _Gen(object):
         if p.bin_bool:
             kinds += ['bool', 'bool']
         un_t = [o for o in p.un_temp if not fin or o in ('once', 'historically', 'eventually', 'always')]
+        bin_t, tun_t, tbin_t = list(p.bin_temp), list(p.tun), list(p.tbin)
+        if self.nofut:
+            un_t = [o for o in un_t if o not in UN_FUT]
+            bin_t = [o for o in bin_t if o not in BIN_FUT]
+            tun_t = [o for o in tun_t if o not in TUN_FUT]
+            tbin_t = [o for o in tbin_t if o not in TBIN_FUT]
         if un_t:
             kinds += ['unt', 'unt']
-        if p.bin_temp:
+        if bin_t:
             kinds += ['bint']
         if not fin:
-            if p.tun:
+            if tun_t:
                 kinds += ['tun', 'tun', 'tun']
-            if p.tbin:
+            if tbin_t:
                 kinds += ['tbin', 'tbin']
         if not kinds:
             f, m = self.predicate(depth)
@@ -459,7 +478,7 @@ class _Gen(object):
         if kind == 'event':
             op = self.choice(p.events)
             # rise/fall of a FIN operand is FIN; of an ANY operand ANY
-            c, cf, m = self.formula(depth - 1, fin)
+            c, cf, m = self.past_operand(depth - 1, fin)
             return ('un', op, c), cf, m
         if kind == 'bool':
             op = self.choice(p.bin_bool)
@@ -470,25 +489,31 @@ class _Gen(object):
             return ('bin', op, l, r), lf and rf, m
         if kind == 'unt':
             op = self.choice(un_t)
-            c, cf, m = self.formula(depth - 1, fin)
+            if op in UN_PAST:
+                c, cf, m = self.past_operand(depth - 1, fin)
+            else:
+                c, cf, m = self.formula(depth - 1, fin)
             if op in ('prev', 's_prev', 'next', 's_next'):
                 return ('un', op, c), False, m
             return ('un', op, c), cf, m
         if kind == 'bint':
-            op = self.choice(p.bin_temp)
-            l, lf, ml = self.formula(depth - 1, fin)
-            r, rf, mr = self.formula(depth - 1, fin)
+            op = self.choice(bin_t)
+            sub = self.past_operand if op in BIN_PAST else self.formula
+            l, lf, ml = sub(depth - 1, fin)
+            r, rf, mr = sub(depth - 1, fin)
             return ('bin', op, l, r), lf and rf, max(ml, mr)
         if kind == 'tun':
-            op = self.choice(p.tun)
+            op = self.choice(tun_t)
             a, b = self.bounds()
-            c, cf, m = self.formula(depth - 1, False)
+            sub = self.past_operand if op in TUN_PAST else self.formula
+            c, cf, m = sub(depth - 1, False)
             return ('tun', op, a, b, c), False, m
         if kind == 'tbin':
-            op = self.choice(p.tbin)
+            op = self.choice(tbin_t)
             a, b = self.bounds()
-            l, lf, ml = self.formula(depth - 1, False)
-            r, rf, mr = self.formula(depth - 1, False)
+            sub = self.past_operand if op in TBIN_PAST else self.formula
+            l, lf, ml = sub(depth - 1, False)
+            r, rf, mr = sub(depth - 1, False)
             return ('tbin', op, a, b, l, r), False, max(ml, mr)
         raise AssertionError(kind)
 
